@@ -1,6 +1,7 @@
 package main
 
 import (
+	"sync"
 	"context"
 	"fmt"
 	"math/rand"
@@ -68,9 +69,22 @@ func implEval(text string, localOff int, hostSpec, dataWire string) (string, []s
 func implEvalInner(text string, localOff int, hostSpec, dataWire string) (string, []string) {
 	var fails []string
 	setLocal(localOff)
-	src, err := formula.ParseSourceCode([]byte(text))
-	if err != nil {
-		return "parse-error", nil
+	// "parse once, evaluate per row": a formula text seen before in this process reuses its parsed tree, so state
+	// kept on tree nodes (memoised operand kinds, cached results, rewritten children) is observed by later rows
+	parsedMu.Lock()
+	src, seen := parsedTrees[text]
+	parsedMu.Unlock()
+	if !seen {
+		var err error
+		src, err = formula.ParseSourceCode([]byte(text))
+		if err != nil {
+			return "parse-error", nil
+		}
+		parsedMu.Lock()
+		if len(parsedTrees) < 200000 {
+			parsedTrees[text] = src
+		}
+		parsedMu.Unlock()
 	}
 	mk := func(log *callLog) (*formula.Runner, map[string]interface{}) {
 		hosts := buildHosts(hostSpec, log)
@@ -125,6 +139,11 @@ func implEvalInner(text string, localOff int, hostSpec, dataWire string) (string
 }
 
 var thisExpr formula.Expression
+
+var (
+	parsedMu    sync.Mutex
+	parsedTrees = map[string]*formula.SourceCode{}
+)
 
 func init() {
 	s, err := formula.ParseSourceCode([]byte("this"))
